@@ -3,7 +3,7 @@ from __future__ import annotations
 
 import ast
 
-from ..paths import paths
+from ..paths import paths, cond_atoms
 
 from ..model import AnalysisError, AnchorMissing, dotted, last_attr, unparse, walk_no_nested, find_assign, stmt_key
 from ..vmmodel import VMModel, VM, IR
@@ -360,6 +360,10 @@ def run(model, col, tier, share=True):
                     t = unparse(n.test)
                     if ("exported" in t.lower()) and (in_body != t.strip().startswith("not ")):
                         guard_ok = True
+            if not guard_ok:
+                # guard clause form: every path that ends in this return has established `<x>.exported` as true
+                ends = [cond_atoms(evs) for evs, status in paths(h.body) if status == "return" and evs[-1].node is r]
+                guard_ok = bool(ends) and all(any("exported" in k.lower() and v is True for k, v in a.items()) for a in ends)
             col.check(guard_ok, "R03.4", f"{LOWER}::{dh} raw name only for exported functions",
                       "the raw name is returned only under the `exported` test", f"`return {unparse(r.value)}` is not guarded by the exported flag", LOWER, r)
     gm = model.cls(TYPES, "Function").own_method("GetMangledName")
